@@ -90,15 +90,22 @@ def _hdr_regex(header):
 def inject_loops(path, entries):
     text = open(path).read()
     ins = []  # (offset, string)
+    misses = []
     for e in entries:
         sh = _shadow(text)
-        b0, b1 = find_function(text, sh, e["function"])
+        try:
+            b0, b1 = find_function(text, sh, e["function"])
+        except StageError as ex:
+            misses.append("%s: %s" % (e["function"], ex))
+            continue
         rx = re.compile(_hdr_regex(e["header"]))
         ms = [m for m in rx.finditer(text, b0, b1) if sh[m.start()] == text[m.start()]]
         k, of = e.get("occurrence", 1), e.get("of", 1)
         if len(ms) != of or k > of:
-            raise StageError("loop header matched %d times, expected %d (R1): %s in %s: %r"
-                             % (len(ms), of, e["function"], path, e["header"]))
+            # the loop this contract belongs to is not there any more (the code changed): the run goes on without it; sets that
+            # still fail report their violations, sets that pass are UNDECIDED (a proof that lost a loop contract is not claimed)
+            misses.append("loop header matched %d times, expected %d (R1): %s in %s: %r" % (len(ms), of, e["function"], os.path.basename(path), e["header"]))
+            continue
         m = ms[k - 1]
         end = m.end()
         # the header must end with ')' and the next code char must be body start ('{' or statement) / ';' for do-while
@@ -114,7 +121,7 @@ def inject_loops(path, entries):
         last = off
     out.append(text[last:])
     open(path, "w").write("".join(out))
-    return len(ins)
+    return len(ins), misses
 
 
 R2_RX = re.compile(r"\byaep_error(\s*\()(?!\s*int code)")
@@ -245,8 +252,11 @@ def stage(dst, loops_files=None):
     byfile = {}
     for e in entries:
         byfile.setdefault(e["file"], []).append(e)
+    info["r1_misses"] = []
     for b, es in byfile.items():
-        info["r1_loops"] += inject_loops(os.path.join(dst, b), es)
+        n_ins, misses = inject_loops(os.path.join(dst, b), es)
+        info["r1_loops"] += n_ins
+        info["r1_misses"] += misses
     info["r1_entries"] = [(e["file"], e["function"], e["header"]) for e in entries]
     # faithfulness: undo R1 and R2, compare with the working tree byte for byte
     for b, ob in orig.items():
